@@ -100,7 +100,7 @@ fn count<T: Queryable>(state: State<T>) -> State<T> {
     match state.data {
         Data::Ref(..) | Data::Value(..) => to_state(1),
         Data::Refs(items) => to_state(items.len() as i64),
-        Data::Nothing => State::nothing(state.root),
+        Data::Nothing => to_state(0),
     }
 }
 /// The match() function extension provides
